@@ -21,6 +21,35 @@ fn test(cluster: &ClusterCfg, actions: &[Action], want: &Violation, focus: Optio
     }
 }
 
+/// Test several candidates on worker threads; returns the candidate with the lowest position in `cands` that
+/// still shows the violation (so the result does not depend on thread timing).
+fn first_success(cluster: &ClusterCfg, cands: Vec<Vec<Action>>, want: &Violation, focus: Option<&'static str>) -> Option<(usize, Vec<Action>, Violation)> {
+    if cands.len() <= 1 {
+        return cands.into_iter().next().and_then(|c| test(cluster, &c, want, focus).map(|nv| (0, c, nv)));
+    }
+    let results: Vec<Option<Violation>> = std::thread::scope(|sc| {
+        let hs: Vec<_> = cands
+            .iter()
+            .map(|c| {
+                sc.spawn(move || {
+                    crate::world::install_thread_hooks();
+                    test(cluster, c, want, focus)
+                })
+            })
+            .collect();
+        hs.into_iter().map(|h| h.join().unwrap_or(None)).collect()
+    });
+    let mut cands = cands;
+    for (i, r) in results.into_iter().enumerate() {
+        if let Some(nv) = r {
+            return Some((i, cands.swap_remove(i), nv));
+        }
+    }
+    None
+}
+
+const PAR: usize = 16;
+
 pub fn minimise(cluster: &ClusterCfg, trace: &[Action], v: &Violation, budget_s: u64, focus: Option<&'static str>) -> (Vec<Action>, Violation) {
     let t0 = Instant::now();
     // cut everything after the violating step
@@ -142,21 +171,30 @@ pub fn minimise(cluster: &ClusterCfg, trace: &[Action], v: &Violation, budget_s:
             if t0.elapsed().as_secs() >= budget_s {
                 break;
             }
-            let lo = i * chunk;
-            let hi = ((i + 1) * chunk).min(cur.len());
-            let mut cand = Vec::with_capacity(cur.len() - (hi - lo));
-            cand.extend_from_slice(&cur[..lo]);
-            cand.extend_from_slice(&cur[hi..]);
-            if let Some(nv) = test(cluster, &cand, v, focus) {
-                // keep only up to the violating step
-                cand.truncate((nv.step as usize).min(cand.len()));
-                cur = cand;
-                cur_v = nv;
-                n = (n - 1).max(2);
-                reduced = true;
-                // restart at same chunk index (content shifted)
-            } else {
-                i += 1;
+            // candidates: remove chunk i, i+1, ... (up to PAR of them), each from the current trace
+            let mut cands = Vec::new();
+            let mut k = i;
+            while k * chunk < cur.len() && cands.len() < PAR {
+                let lo = k * chunk;
+                let hi = ((k + 1) * chunk).min(cur.len());
+                let mut cand = Vec::with_capacity(cur.len() - (hi - lo));
+                cand.extend_from_slice(&cur[..lo]);
+                cand.extend_from_slice(&cur[hi..]);
+                cands.push(cand);
+                k += 1;
+            }
+            let tried = cands.len();
+            match first_success(cluster, cands, v, focus) {
+                Some((j, mut cand, nv)) => {
+                    // keep only up to the violating step
+                    cand.truncate((nv.step as usize).min(cand.len()));
+                    cur = cand;
+                    cur_v = nv;
+                    n = (n - 1).max(2);
+                    reduced = true;
+                    i += j; // chunks before j did not help; content after shifted into position j
+                }
+                None => i += tried,
             }
         }
         if !reduced {
@@ -172,17 +210,31 @@ pub fn minimise(cluster: &ClusterCfg, trace: &[Action], v: &Violation, budget_s:
         changed = false;
         let mut i = cur.len();
         while i > 0 && t0.elapsed().as_secs() < budget_s {
-            i -= 1;
-            if i >= cur.len() {
-                continue;
+            let mut cands = Vec::new();
+            let mut idxs = Vec::new();
+            let mut k = i;
+            while k > 0 && cands.len() < PAR {
+                k -= 1;
+                if k >= cur.len() {
+                    continue;
+                }
+                let mut cand = cur.clone();
+                cand.remove(k);
+                cands.push(cand);
+                idxs.push(k);
             }
-            let mut cand = cur.clone();
-            cand.remove(i);
-            if let Some(nv) = test(cluster, &cand, v, focus) {
-                cand.truncate((nv.step as usize).min(cand.len()));
-                cur = cand;
-                cur_v = nv;
-                changed = true;
+            if cands.is_empty() {
+                break;
+            }
+            match first_success(cluster, cands, v, focus) {
+                Some((j, mut cand, nv)) => {
+                    cand.truncate((nv.step as usize).min(cand.len()));
+                    cur = cand;
+                    cur_v = nv;
+                    changed = true;
+                    i = idxs[j].min(cur.len());
+                }
+                None => i = *idxs.last().unwrap(),
             }
         }
     }
